@@ -5,9 +5,9 @@ import (
 	"fmt"
 	"math/rand"
 	"os"
+	"sort"
 	"strings"
 	"testing"
-	"testing/synctest"
 	"time"
 
 	"github.com/thomasjungblut/go-sstables/simpledb"
@@ -169,6 +169,7 @@ type sessionResult struct {
 	TasksLeft                                  []string
 	OpenSeq, OpenRetSeq, CloseSeq, CloseRetSeq int
 	BubblePanic                                string
+	Unfinished                                 bool
 	ProcFDs, ProcMaps                          []string
 }
 
@@ -188,13 +189,13 @@ func newDBRunner(t *testing.T, dir string, tape *simrt.Tape, keys []string) *dbR
 	return &dbRunner{w: w, dir: dir, keys: keys, t: t}
 }
 
-func (r *dbRunner) doOp(db *simpledb.DB, sess, client int, op dbOp) *opRec {
-	rec := &opRec{ID: r.nextID, Session: sess, Client: client, Kind: op.Kind, Key: r.keys[op.Key]}
-	r.nextID++
+func (r *dbRunner) doOp(db *simpledb.DB, sess, client, idx int, op dbOp, hist *[]*opRec) *opRec {
+	// ids (and therefore written values) are unique without any state shared between client tasks
+	rec := &opRec{ID: sess*100000 + client*10000 + idx, Session: sess, Client: client, Kind: op.Kind, Key: r.keys[op.Key]}
 	if op.Kind == "put" {
 		rec.Val = valueFor(rec.ID, op.ValLen)
 	}
-	r.hist = append(r.hist, rec)
+	*hist = append(*hist, rec)
 	rec.Inv = r.w.Emit(simrt.Event{Kind: simrt.EvInvoke, N: int64(rec.ID)})
 	var err error
 	switch op.Kind {
@@ -230,7 +231,7 @@ func (r *dbRunner) runSession(si int, s dbSession) (res sessionResult) {
 			panic(p)
 		}
 	}()
-	synctest.Test(r.t, func(t *testing.T) {
+	runBubble(r.t, func(t *testing.T) {
 		w := r.w
 		w.EnableScheduler(simrt.SchedConfig{
 			Weights:       [4]int{s.Knobs.WClient, s.Knobs.WFlusher, s.Knobs.WCompactor, 1},
@@ -245,7 +246,22 @@ func (r *dbRunner) runSession(si int, s dbSession) (res sessionResult) {
 			return
 		}
 		done := make(chan struct{}, len(s.Clients)+1)
+		fin := make(chan struct{}, 1)
+		ch := make([][]*opRec, len(s.Clients)+1)
+		for ci := range s.Clients {
+			ch[ci] = make([]*opRec, 0, len(s.Clients[ci]))
+		}
+		merge := func() {
+			var all []*opRec
+			for _, h := range ch {
+				all = append(all, h...)
+			}
+			sort.SliceStable(all, func(i, j int) bool { return all[i].Inv < all[j].Inv })
+			r.hist = append(r.hist, all...)
+		}
+		merged := false
 		w.GoClient("main", func() {
+			defer func() { fin <- struct{}{} }()
 			res.OpenSeq = w.Emit(simrt.Event{Kind: simrt.EvMark, Note: "open"})
 			err := db.Open()
 			res.OpenRetSeq = w.Emit(simrt.Event{Kind: simrt.EvMark, Note: "opened"})
@@ -262,7 +278,7 @@ func (r *dbRunner) runSession(si int, s dbSession) (res sessionResult) {
 						if r.betweenHook != nil {
 							r.betweenHook(db, si, ci, i)
 						}
-						rec := r.doOp(db, si, ci, op)
+						rec := r.doOp(db, si, ci, i, op, &ch[ci])
 						if r.onOp != nil {
 							r.onOp(db, rec)
 						}
@@ -275,7 +291,7 @@ func (r *dbRunner) runSession(si int, s dbSession) (res sessionResult) {
 					if r.betweenHook != nil {
 						r.betweenHook(db, si, 0, i)
 					}
-					rec := r.doOp(db, si, 0, op)
+					rec := r.doOp(db, si, 0, i, op, &ch[0])
 					if r.onOp != nil {
 						r.onOp(db, rec)
 					}
@@ -284,6 +300,8 @@ func (r *dbRunner) runSession(si int, s dbSession) (res sessionResult) {
 			for ci := 1; ci < len(s.Clients); ci++ {
 				<-done
 			}
+			merge() // every client has finished: their histories are ordered before this point
+			merged = true
 			if s.NoClose {
 				return
 			}
@@ -294,8 +312,19 @@ func (r *dbRunner) runSession(si int, s dbSession) (res sessionResult) {
 			res.CloseRetSeq = w.Emit(simrt.Event{Kind: simrt.EvMark, Note: "closed"})
 		})
 		rr, err := w.RunScheduler()
+		select {
+		case <-fin: // orders everything the main task wrote before what follows
+		default:
+		}
 		res.Run = rr
 		res.SchedErr = err
+		if !merged {
+			if simrt.RaceBuild {
+				res.Unfinished = true // the tasks were torn down mid-way: their partial histories are not read
+			} else {
+				merge()
+			}
+		}
 		res.Stopped = w.StoppedMessages()
 		res.MaxHandles, res.MaxMappings = w.MaxHandles, w.MaxMappings
 		if err != nil || len(res.Stopped) > 0 || s.NoClose {
@@ -346,7 +375,7 @@ func runInBubble(t *testing.T, w *simrt.World, knobs schedKnobs, body func()) (r
 			panic(p)
 		}
 	}()
-	synctest.Test(t, func(t *testing.T) {
+	runBubble(t, func(t *testing.T) {
 		w.EnableScheduler(simrt.SchedConfig{
 			Weights:       [4]int{max(knobs.WClient, 1), max(knobs.WFlusher, 1), max(knobs.WCompactor, 1), 1},
 			AdvanceWeight: knobs.Advance,
